@@ -331,6 +331,9 @@ class Interpreter:
                 return val
             home = self._home(v, frame)
             graph = v
+            # node-by-node evaluation is eager: values inside the function body that do not depend on its
+            # parameters belong to the enclosing scope and are computed there, once, when the function is defined
+            self._hoist(graph, frame)
 
             def closure(*args, _graph=graph, _home=home):
                 fr = Frame(_graph, _home)
@@ -411,6 +414,46 @@ class Interpreter:
             raise NotImplementedError(type(o).__name__)
         self._assign(o.output, res, home)
         return self._lookup(v, frame)[1]
+
+    def _hoist(self, graph, frame):
+        tracer = self.tracer
+        inner = {id(i) for i in self._flat_inputs(graph)}
+        seen = set()
+
+        def rec(x):
+            if _is_prim(x):
+                return
+            if isinstance(x, (list, tuple)):
+                for i in x:
+                    rec(i)
+                return
+            if isinstance(x, dict):
+                for i in list(x.keys()) + list(x.values()):
+                    rec(i)
+                return
+            if isinstance(x, slice):
+                rec([x.start, x.stop, x.step])
+                return
+            if id(x) in seen:
+                return
+            seen.add(id(x))
+            if isinstance(x, tracer.Graph):
+                if not (self.deps(x) & inner):
+                    self.eval(x, frame)
+                else:
+                    rec(x.output)
+                return
+            if isinstance(x, tracer.Tracer):
+                if x.origin is None:
+                    return
+                if not (self.deps(x) & inner):
+                    self.eval(x, frame)
+                else:
+                    rec(list(x.origin.inputs))
+                    if isinstance(x.origin, tracer.Cast):
+                        rec(x.origin.input)
+
+        rec(graph.output)
 
     def _assign(self, out_tree, concrete, frame):
         tracer = self.tracer
